@@ -14,7 +14,7 @@ import (
 
 func (e *Engine) newFnCtx(fn *ssa.Function, spec *FuncSpec) *FnCtx {
 	c := &FnCtx{eng: e, fn: fn, spec: spec, sc: newScript(), heapSorts: map[string]string{}, notes: map[string]bool{}, safetyCtr: map[string]int{},
-		assumed: map[string]bool{}, inlined: map[string]bool{}, masks: map[string]string{}, pow2s: map[string]string{}, boxes: map[string]Val{}, deriv: map[string]derivInfo{}}
+		assumed: map[string]bool{}, inlined: map[string]bool{}, localTouched: map[string]bool{}, masks: map[string]string{}, pow2s: map[string]string{}, boxes: map[string]Val{}, deriv: map[string]derivInfo{}}
 	if fn != nil {
 		c.funcName = shortFuncName(fn, e.modPath)
 	}
@@ -269,7 +269,7 @@ func (c *FnCtx) atReturn(fr *Frame, ex exitInfo, idx, total int) {
 			}
 			return env
 		}
-		for i, en := range spec.Ensures {
+		for i, en := range append(append([]Clause(nil), spec.Ensures...), spec.InternalEnsures...) {
 			env := mkEnv()
 			goal, err := env.evalBool(en.E)
 			if err != nil {
@@ -588,6 +588,21 @@ func (c *FnCtx) modTargets(env *Env, exprs []*Expr, pos string) []modTarget {
 				}
 			}
 			if !found {
+				// footprints are visible across packages by name
+				var pks []string
+				for pk := range c.eng.specs.Footprints {
+					pks = append(pks, pk)
+				}
+				sort.Strings(pks)
+				for _, pk := range pks {
+					if es, ok := c.eng.specs.Footprints[pk][m.Args[0].Name]; ok {
+						expanded = append(expanded, es...)
+						found = true
+						break
+					}
+				}
+			}
+			if !found {
 				c.contractStale("modifies", pos, fmt.Errorf("unknown footprint %s", m.Args[0].Name), nil)
 			}
 			continue
@@ -820,6 +835,11 @@ func (c *FnCtx) frameCheck(fr *Frame, st *State, cond string, spec *FuncSpec, su
 		if now == was {
 			continue
 		}
+		if !c.localTouched[n] && (!strings.HasPrefix(n, "G:") || !strings.HasPrefix(n, "G:~")) {
+			// only changed through contracts of callees in other packages: private state of
+			// their objects, governed by their own contracts and ghost views
+			continue
+		}
 		r := c.sc.fresh("frame.r", "Int")
 		k := c.sc.fresh("frame.k", "Int")
 		f, ok := c.frameFormula(fr, n, now, targets, r, k)
@@ -918,8 +938,11 @@ func calleeShort(e *Engine, callee *ssa.Function, name string) string {
 
 func (c *FnCtx) applyContract(bc *blockCtx, spec *FuncSpec, cc *ssa.CallCommon, callee *ssa.Function, name string, args []Val, pos token.Pos) Val {
 	short := calleeShort(c.eng, callee, name)
-	occ := bc.fr.callOcc[short]
-	bc.fr.callOcc[short] = occ + 1
+	occ, known := bc.fr.occOf[cc]
+	if !known {
+		occ = bc.fr.callOcc[short]
+		bc.fr.callOcc[short] = occ + 1
+	}
 	if spec.Ext || spec.Trusted != "" {
 		c.assumed[short] = true
 	}
@@ -948,7 +971,12 @@ func (c *FnCtx) applyContract(bc *blockCtx, spec *FuncSpec, cc *ssa.CallCommon, 
 		return env
 	}
 	label := fmt.Sprintf("%s#%d", short, occ)
+	foreign := spec.PkgPath != "" && c.top != nil && c.top.fn.Pkg != nil && spec.PkgPath != c.top.fn.Pkg.Pkg.Path()
 	for i, r := range spec.Requires {
+		if r.Local && foreign {
+			c.assumed["concrete-layer precondition of "+short+" (not visible across packages): "+r.Text] = true
+			continue
+		}
 		env := mkEnv(bc.st)
 		env.old = nil
 		t, err := env.evalBool(r.E)
@@ -1017,7 +1045,9 @@ func (c *FnCtx) applyContract(bc *blockCtx, spec *FuncSpec, cc *ssa.CallCommon, 
 	st := bc.st
 	env0 := mkEnv(pre)
 	targets := c.modTargets(env0, append(append([]*Expr(nil), spec.Modifies...), spec.TrustedModifies...), spec.Pos)
+	c.foreignHavoc = foreign
 	c.havocTargets(st, targets)
+	c.foreignHavoc = false
 	if len(spec.TrustedEnsures) > 0 {
 		c.assumed[short+" (abstract clauses; "+spec.TrustedWhy+")"] = true
 	}
